@@ -3,7 +3,7 @@
     replacement by their contracts), with a POSIX single-quote lexer as the reference consumer of @sh. *)
 From Coq Require Import List ZArith.
 From Coq Require Import Init.Byte.
-From JaqV Require Import Base.Bytes Std.Codec Proofs.CodecLaws Val.Val Val.Utf8 Val.Err Val.Arith Std.Natives Proofs.StringLaws Fmts.Tabular Proofs.TabularLaws.
+From JaqV Require Import Base.Bytes Std.Codec Proofs.CodecLaws Proofs.Base64Strict Val.Val Val.Utf8 Val.Err Val.Arith Std.Natives Proofs.StringLaws Fmts.Tabular Proofs.TabularLaws.
 Import ListNotations.
 
 (** @uri | @urid : every byte string (any bytes, also invalid UTF-8) is returned unchanged *)
@@ -75,3 +75,14 @@ Theorem ascii_case_bytewise : forall s,
   /\ Forall2 (fun a b => b = a \/ (97 <= bz a <= 122 /\ bz b = bz a - 32)%Z) s (ascii_map upper s).
 Proof. exact StringLaws.ascii_case_bytewise. Qed.
 Print Assumptions ascii_case_bytewise.
+
+(** ... and the decoder rejects rather than truncates: whatever it accepts is exactly the encoding of what it returns
+    (whole quadruples, canonical padding, no stray trailing bits), so no two texts decode to the same bytes *)
+Theorem base64_decoder_accepts_only_encodings : forall fuel s r, b64_decode fuel s = Some r -> b64_encode r = s.
+Proof. exact Base64Strict.base64_decode_is_strict. Qed.
+Print Assumptions base64_decoder_accepts_only_encodings.
+
+Theorem base64_decoder_is_injective : forall fuel fuel' s s' r,
+  b64_decode fuel s = Some r -> b64_decode fuel' s' = Some r -> s = s'.
+Proof. exact Base64Strict.base64_decode_injective. Qed.
+Print Assumptions base64_decoder_is_injective.
